@@ -23,6 +23,8 @@ import (
 //	  every use of rewriter.GetMethodBody for a field is wrapped in strings.TrimSpace -> trimBody
 //	plugin/resolvergen/resolver.gotpl
 //	  the text after the WARNING header: one of the two known shapes               -> trailerMode
+//	codegen/templates/import.go
+//	  Import.String: the condition under which the alias is left out               -> aliasOmitRule
 //
 // Anything else is a shape the translator does not know: it fails (broken tie).
 func init() { extractors["RewriteOffsets"] = extractRewriteOffsets }
@@ -318,10 +320,60 @@ func extractRewriteOffsets(repo string) (string, error) {
 		return "", fmt.Errorf("resolver.gotpl: unknown shape of the WARNING block tail: %q", tail)
 	}
 
+	// ---- Import.String
+	ipath := filepath.Join(repo, "codegen/templates/import.go")
+	impf, err := parser.ParseFile(fset, ipath, nil, 0)
+	if err != nil {
+		return "", err
+	}
+	var strFn *ast.FuncDecl
+	for _, d := range impf.Decls {
+		if fd, ok := d.(*ast.FuncDecl); ok && fd.Name.Name == "String" && fd.Recv != nil && len(fd.Recv.List) == 1 {
+			if st, ok := fd.Recv.List[0].Type.(*ast.StarExpr); ok && roSel(st.X) == "Import" {
+				strFn = fd
+			}
+		}
+	}
+	if strFn == nil || len(strFn.Body.List) != 2 {
+		return "", fmt.Errorf("import.go: (*Import).String no longer has the shape `if cond { return quoted path }; return alias + path`")
+	}
+	ifs, ok := strFn.Body.List[0].(*ast.IfStmt)
+	if !ok || ifs.Init != nil || ifs.Else != nil {
+		return "", fmt.Errorf("import.go: (*Import).String: unknown shape")
+	}
+	isSuffixCall := func(e ast.Expr) bool {
+		c, ok := e.(*ast.CallExpr)
+		return ok && roSel(c.Fun) == "strings.HasSuffix" && len(c.Args) == 2 && roSel(c.Args[0]) == "i.Path" && roSel(c.Args[1]) == "i.Alias"
+	}
+	eq := func(e ast.Expr, l, r string) bool {
+		b, ok := e.(*ast.BinaryExpr)
+		if !ok || b.Op != token.EQL || roSel(b.X) != l {
+			return false
+		}
+		if lit, ok := b.Y.(*ast.BasicLit); ok {
+			return lit.Value == r
+		}
+		return roSel(b.Y) == r
+	}
+	rule := ""
+	if isSuffixCall(ifs.Cond) {
+		rule = ".suffixOnly"
+	} else if and, ok := ifs.Cond.(*ast.BinaryExpr); ok && and.Op == token.LAND && isSuffixCall(and.X) {
+		if p, ok := and.Y.(*ast.ParenExpr); ok {
+			if or, ok := p.X.(*ast.BinaryExpr); ok && or.Op == token.LOR && eq(or.X, "i.Alias", "i.Name") && eq(or.Y, "i.Name", `""`) {
+				rule = ".suffixAndName"
+			}
+		}
+	}
+	if rule == "" {
+		return "", fmt.Errorf("import.go: (*Import).String: unknown alias-omission condition")
+	}
+
 	var b strings.Builder
 	b.WriteString("/-! Facts re-read from internal/rewrite/rewriter.go, plugin/resolvergen/resolver.go and resolver.gotpl (C19). -/\n")
 	b.WriteString("namespace GqlgenVerif.Gen.RewriteOffsets\n\n")
 	b.WriteString("/-- how the template writes the leftover code after the WARNING header -/\ninductive TrailerMode\n  | blockAlways       -- always inside one /* */ comment\n  | lineWhenBlockEnd  -- as // lines when the code contains \"*/\", else inside /* */\n  deriving DecidableEq, Repr\n\n")
+	b.WriteString("/-- when (*templates.Import).String leaves the alias out -/\ninductive AliasOmitRule\n  | suffixOnly      -- strings.HasSuffix(path, alias)\n  | suffixAndName   -- ... && (alias == package name || package name unknown)\n  deriving DecidableEq, Repr\n\n")
 	fmt.Fprintf(&b, "/-- GetMethodBody: getSource(d.Body.Pos()+%d, d.Body.End()-%d) -/\ndef bodyStartOff : Nat := %d\ndef bodyEndOff : Nat := %d\n\n", startOff, endOff, startOff, endOff)
 	fmt.Fprintf(&b, "/-- RemainingSource: `if r.copied[d] { continue }` present -/\ndef skipCopied : Bool := %v\n", skipCopied)
 	qs := []string{}
@@ -332,6 +384,7 @@ func extractRewriteOffsets(repo string) (string, error) {
 	fmt.Fprintf(&b, "/-- RemainingSource: written after every declaration -/\ndef declSep : String := %s\n", strconv.Quote(sep))
 	fmt.Fprintf(&b, "/-- RemainingSource: result passed through strings.TrimSpace -/\ndef trimRemaining : Bool := %v\n", trimRem)
 	fmt.Fprintf(&b, "/-- resolver.gotpl: shape of the WARNING block -/\ndef trailerMode : TrailerMode := %s\n", mode)
+	fmt.Fprintf(&b, "/-- codegen/templates/import.go: Import.String -/\ndef aliasOmitRule : AliasOmitRule := %s\n", rule)
 	b.WriteString("\nend GqlgenVerif.Gen.RewriteOffsets\n")
 	return b.String(), nil
 }
